@@ -30,5 +30,14 @@ def run_case(spec, rec):
     rec.case(spec, nontrivial, ag.classify(spec, expected, ref_terms))
 
 
+def run_sizes(spec, rec):
+    import qubovert as qv
+    for c in spec["calls"]:
+        res, (f, model, kwargs, expected, ref_terms, spin, init) = ag.run_call(qv, c)
+        rec.case(c, True, ["sizes", c["func"], "n=%d" % len(expected)])
+
+
 def subchecks(tier):
-    return [Sub("call", ag.call_spec(), run_case, quick=24000, thorough=400000)]
+    return [Sub("call", ag.call_spec(), run_case, quick=24000, thorough=400000),
+            # chains of every size around the powers of two up to 1025 (size-dependent branches)
+            Sub("sizes", None, run_sizes, quick=0, thorough=0, enumerate=ag.size_cases)]
